@@ -45,7 +45,7 @@ RULE = ("cases = (DDL text, entry point, configuration): texts = statement mixes
         "result. Non-trivial = result with >= 1 entity and a configuration that differs from the test-suite's (utf-8, no dump, default "
         "settings); distinct = distinct (text, entry point, configuration).")
 ASSUMPTIONS = ["dump file name = input base name up to its first dot + '_schema.json' (the pinned behaviour named in the property's rationale)",
-               "file names do not start with a dot; two inputs of one directory never share a stem",
+               "two inputs of one directory never share a stem (a hidden file such as .init.sql has the empty stem and dumps to _schema.json)",
                "directory mode: only lower-case .sql/.ddl/.hql/.bql names are judged eligible, names without one of the four extensions must be ignored",
                "stderr / logging output is not judged"]
 MIN_EVENTS = {"entry_point_calls": 200, "dump_files_compared": 40, "fs_listings_compared": 200}
@@ -125,10 +125,13 @@ def gen_name(rng, ext=None):
 TARGETS = ["default", "missing", "nested_missing", "existing", "existing_stale", "dot", "trailing_slash", "absolute_missing", "same_as_input"]
 
 
-def build_tree(rng, root, names_texts, target_kind, abs_input):
-    """create root/cwd, root/in/<files>; returns dict(cwd, in_dir, paths (as they will be passed), target_arg, target_real)"""
+IN_NAMES = ["in", "in", "in", "release[2024]", "in put", "v1.2", "ddl*", "a?b", "[x]", "in{1}"]
+
+
+def build_tree(rng, root, names_texts, target_kind, abs_input, in_name="in"):
+    """create root/cwd, root/<in_name>/<files>; returns dict(cwd, in_dir, paths (as they will be passed), target_arg, target_real)"""
     cwd = os.path.join(root, "cwd")
-    ind = os.path.join(root, "in")
+    ind = os.path.join(root, in_name)
     os.makedirs(cwd)
     os.makedirs(ind)
     paths = []
@@ -136,7 +139,7 @@ def build_tree(rng, root, names_texts, target_kind, abs_input):
         p = os.path.join(ind, name)
         with open(p, "wb") as f:
             f.write(raw)
-        paths.append(p if abs_input else os.path.join("..", "in", name))
+        paths.append(p if abs_input else os.path.join("..", in_name, name))
     stale = {}
     if target_kind == "default":
         targ, treal = None, os.path.join(cwd, "schemas")
@@ -163,7 +166,7 @@ def build_tree(rng, root, names_texts, target_kind, abs_input):
         treal = os.path.join(root, "abs_out", "deep")
         targ = treal
     elif target_kind == "same_as_input":
-        targ, treal = os.path.join("..", "in"), ind
+        targ, treal = os.path.join("..", in_name), ind
     else:
         raise ValueError(target_kind)
     return {"cwd": cwd, "in_dir": ind, "paths": paths, "target_arg": targ, "target_real": treal, "stale": stale}
@@ -260,7 +263,7 @@ def run_pf(ctx, case):
     old = os.getcwd()
     try:
         raw = bytes.fromhex(case["raw_hex"])
-        tree = build_tree(ctx.rng, root, [(case["name"], raw)], case["target"], case["abs_input"])
+        tree = build_tree(ctx.rng, root, [(case["name"], raw)], case["target"], case["abs_input"], case.get("in_name", "in"))
         try:
             text = ref_decode(raw, case["enc"])
         except Exception:
@@ -329,11 +332,11 @@ def run_cli(ctx, case):
     old_argv = sys.argv
     try:
         files = [(n, bytes.fromhex(h)) for n, h in case["files"]]
-        tree = build_tree(ctx.rng, root, files, case["target"], case["abs_input"])
+        tree = build_tree(ctx.rng, root, files, case["target"], case["abs_input"], case.get("in_name", "in"))
         flags = case["flags"]
         mode = flags.get("mode") or "sql"
         if case["dir_mode"]:
-            path_arg = tree["in_dir"] if case["abs_input"] else os.path.join("..", "in")
+            path_arg = tree["in_dir"] if case["abs_input"] else os.path.join("..", case.get("in_name", "in"))
             elig = [(n, r) for n, r in files if re.search(r"\.(sql|ddl|hql|bql)$", n)]
         else:
             path_arg = tree["paths"][0]
@@ -453,7 +456,7 @@ def gen_pf_case(ctx, rng, corp, j):
         kw["output_mode"] = rng.choice(["SQL", "pg", "", "hql "])
     dump = rng.random() < 0.45
     return {"gen": "pf", "raw_hex": raw.hex(), "enc": enc, "enc_given": enc != "utf-8" or rng.random() < 0.5, "name": gen_name(rng), "settings": settings, "kw": kw,
-            "dump": dump, "target": rng.choice(TARGETS) if dump else "default", "abs_input": rng.random() < 0.5}
+            "dump": dump, "target": rng.choice(TARGETS) if dump else "default", "abs_input": rng.random() < 0.5, "in_name": rng.choice(IN_NAMES)}
 
 
 INELIGIBLE = ["notes.txt", "data.json", "README", "readme.md", "old.sql.bak", "x.py", "table.csv", "y.sqlx", "Makefile"]
@@ -472,6 +475,9 @@ def gen_cli_case(ctx, rng, corp, subprocess_=False, dir_mode=None):
                 continue
             stems.add(stem_of(name))
             files.append((name, gen_text(ctx, rng, corp).encode("utf-8").hex()))
+        if rng.random() < 0.25 and "" not in stems:
+            stems.add("")
+            files.append((rng.choice([".init.sql", ".hidden.ddl"]), gen_text(ctx, rng, corp).encode("utf-8").hex()))      # a hidden file is a .sql file too
         for name in rng.sample(INELIGIBLE, rng.randint(0, 3)):
             if stem_of(name) not in stems:
                 stems.add(stem_of(name))
@@ -483,7 +489,8 @@ def gen_cli_case(ctx, rng, corp, subprocess_=False, dir_mode=None):
              "t_form": rng.choice(["-t", "--target"]), "o_form": rng.choice(["-o", "--output-mode"]), "shuffle": rng.random() < 0.3}
     if rng.random() < 0.04:
         flags["mode"] = rng.choice(["SQL", "postgresql", "x"])
-    return {"gen": "cli", "files": files, "dir_mode": dir_mode, "flags": flags, "target": rng.choice(TARGETS), "abs_input": rng.random() < 0.5, "subprocess": subprocess_}
+    return {"gen": "cli", "files": files, "dir_mode": dir_mode, "flags": flags, "target": rng.choice(TARGETS), "abs_input": rng.random() < 0.5, "subprocess": subprocess_,
+            "in_name": rng.choice(IN_NAMES)}
 
 
 def run_shard(ctx):
